@@ -106,6 +106,83 @@ def norm(node: ast.AST) -> str:
         return ast.dump(node)
 
 
+class NTRow(tuple):
+    """value of a typing.NamedTuple class of the package built by a foldable call: a real tuple with named fields"""
+
+    def __new__(cls, name, fields, vals):
+        o = super().__new__(cls, vals)
+        o._name = name
+        o._fields = tuple(fields)
+        return o
+
+    def field(self, name):
+        return self[self._fields.index(name)]
+
+    def __reduce__(self):
+        return (NTRow, (self._name, self._fields, tuple(self)))
+
+    def __deepcopy__(self, memo):
+        import copy
+        return NTRow(self._name, self._fields, tuple(copy.deepcopy(x, memo) for x in self))
+
+
+class _MatchDesugar(ast.NodeTransformer):
+    """`match` statements whose patterns are values, singletons, alternatives of those, captures and the wildcard (with or without guards) are
+    rewritten into the if / elif chain they mean, so that every engine piece (CFG, interpreter, syntactic audits) sees one statement form.
+    Statements with structural patterns (sequences, mappings, classes) are left as they are and stay unsupported."""
+
+    def __init__(self):
+        self.n = 0
+
+    def _test(self, pat, subj):
+        if isinstance(pat, ast.MatchValue):
+            return ast.Compare(left=subj(), ops=[ast.Eq()], comparators=[pat.value]), []
+        if isinstance(pat, ast.MatchSingleton):
+            return ast.Compare(left=subj(), ops=[ast.Is()], comparators=[ast.Constant(pat.value)]), []
+        if isinstance(pat, ast.MatchOr):
+            parts = [self._test(p, subj) for p in pat.patterns]
+            if any(p[0] is None or p[1] for p in parts):
+                return None, []
+            return ast.BoolOp(op=ast.Or(), values=[p[0] for p in parts]), []
+        if isinstance(pat, ast.MatchAs) and pat.pattern is None:
+            binds = [ast.Assign(targets=[ast.Name(id=pat.name, ctx=ast.Store())], value=subj())] if pat.name else []
+            return ast.Constant(True), binds
+        return None, []
+
+    def visit_Match(self, node):
+        self.generic_visit(node)
+        self.n += 1
+        if isinstance(node.subject, ast.Name):
+            pre, subj = [], (lambda: ast.Name(id=node.subject.id, ctx=ast.Load()))
+        else:
+            tmp = f'__match_subject_{self.n}'
+            pre, subj = [ast.Assign(targets=[ast.Name(id=tmp, ctx=ast.Store())], value=node.subject)], (lambda: ast.Name(id=tmp, ctx=ast.Load()))
+        arms = []
+        for c in node.cases:
+            test, binds = self._test(c.pattern, subj)
+            if test is None:
+                return node
+            if c.guard is not None:
+                if binds:
+                    return node  # a guard that reads a capture: keep the statement as it is
+                test = c.guard if isinstance(test, ast.Constant) and test.value is True else ast.BoolOp(op=ast.And(), values=[test, c.guard])
+            arms.append((test, binds + c.body))
+        chain: List[ast.stmt] = []
+        for test, body in reversed(arms):
+            if isinstance(test, ast.Constant) and test.value is True:
+                chain = list(body)
+            else:
+                chain = [ast.If(test=test, body=list(body), orelse=chain)]
+        out = pre + chain
+        for st in out:
+            ast.copy_location(st, node)
+            for sub in ast.walk(st):
+                if not hasattr(sub, 'lineno'):
+                    ast.copy_location(sub, node)
+            ast.fix_missing_locations(st)
+        return out or [ast.copy_location(ast.Pass(), node)]
+
+
 class Repo:
     def __init__(self, root: Optional[str] = None):
         self.root = root or os.environ.get('SA_REPO', '/repo')
@@ -140,6 +217,8 @@ class Repo:
                     tree = ast.parse(src, filename=path)
                 except SyntaxError as e:
                     raise AnalysisError(f'cannot parse {rel}: {e}')
+                if 'match ' in src:
+                    tree = _MatchDesugar().visit(tree)
                 mi = ModuleInfo(name=name, path=path, relpath=rel, tree=tree, source=src)
                 self.modules[name] = mi
                 self.files_consulted.append(rel)
@@ -147,6 +226,27 @@ class Repo:
             self._index_module(mi)
         for ci in self.classes.values():
             self._resolve_class(ci)
+        self._keep_identity_of_moved_functions()
+
+    def _keep_identity_of_moved_functions(self) -> None:
+        """A module-level function that the inventory knows as `pkg.mod.f`, that is no longer defined in `mod` but imported into it from a
+        module where it IS defined and where the inventory does not know it, was moved and imported back.  It keeps the qualified name the
+        checks know it by (its `module` stays the one it now lives in, so that names inside it resolve correctly)."""
+        self.is_fresh('')  # loads the inventory
+        known = type(self)._known_functions or set()
+        for old in sorted(known):
+            if old in self.functions:
+                continue
+            mod, _, name = old.rpartition('.')
+            if mod not in self.modules or name not in self.modules[mod].imports:
+                continue
+            new = self.canonical(old)
+            if new != old and new in self.functions and new not in known:
+                fi = self.functions[new]
+                fi.moved_from = new  # type: ignore[attr-defined]
+                fi.qualname = old
+                self.functions[old] = fi
+                self.modules[mod].functions.setdefault(name, fi)
 
     def _index_module(self, mi: ModuleInfo) -> None:
         is_pkg = mi.path.endswith('__init__.py')
@@ -234,8 +334,34 @@ class Repo:
             q = head
         return f'{q}.{rest}' if rest else q
 
+    def canonical(self, qual: str) -> str:
+        """the qualified name a re-exported name stands for: `pkg.mod.name` where `mod` only imports `name` (a function, class or table that
+        was moved to another module and imported back) is followed to its definition; methods of a moved class follow their class"""
+        for _ in range(6):
+            if qual in self.classes or qual in self.functions or qual in self.modules:
+                return qual
+            parts = qual.split('.')
+            hit = None
+            for i in range(len(parts) - 1, 0, -1):
+                mod = '.'.join(parts[:i])
+                if mod in self.modules:
+                    hit = (self.modules[mod], parts[i], parts[i + 1:])
+                    break
+            if hit is None:
+                return qual
+            mi, attr, rest = hit
+            if attr in mi.assigns or attr in mi.classes or attr in mi.functions or attr not in mi.imports:
+                return qual
+            tgt = self.resolve_name(mi, attr)
+            new = '.'.join([tgt] + rest)
+            if new == qual:
+                return qual
+            qual = new
+        return qual
+
     def lookup(self, qual: str) -> Tuple[Optional[str], Any]:
         """('class'|'func'|'const'|'module', obj) for a qualified name."""
+        qual = self.canonical(qual)
         if qual in self.classes:
             return 'class', self.classes[qual]
         if qual in self.functions:
@@ -253,11 +379,13 @@ class Repo:
         return self.modules[name]
 
     def cls(self, qual: str) -> ClassInfo:
+        qual = self.canonical(qual)
         if qual not in self.classes:
             raise AnalysisError(f'anchor class missing: {qual}')
         return self.classes[qual]
 
     def func(self, qual: str) -> FuncInfo:
+        qual = self.canonical(qual)
         if qual not in self.functions:
             raise AnalysisError(f'anchor function missing: {qual}')
         return self.functions[qual]
@@ -446,6 +574,28 @@ class Repo:
             if fn in ('min', 'max') and node.args and not node.keywords:
                 vs = [f(a) for a in node.args]
                 return (min if fn == 'min' else max)(*vs) if len(vs) > 1 else (min if fn == 'min' else max)(vs[0])
+            if fn:
+                kind, obj = self.lookup(self.resolve_name(mi, fn))
+                if kind == 'class' and any(b.rsplit('.', 1)[-1] == 'NamedTuple' for b in obj.base_names):
+                    fields = [st.target.id for st in obj.node.body if isinstance(st, ast.AnnAssign) and isinstance(st.target, ast.Name)]
+                    vals: List[Any] = []
+                    for a in node.args:
+                        if isinstance(a, ast.Starred):
+                            vals += list(f(a.value))
+                        else:
+                            vals.append(f(a))
+                    kw = {k.arg: f(k.value) for k in node.keywords if k.arg}
+                    defaults = {st.target.id: st.value for st in obj.node.body if isinstance(st, ast.AnnAssign) and isinstance(st.target, ast.Name) and st.value is not None}
+                    for name in fields[len(vals):]:
+                        if name in kw:
+                            vals.append(kw[name])
+                        elif name in defaults:
+                            vals.append(self.fold(defaults[name], obj.module, None, _depth + 1))
+                        else:
+                            raise NotConstant(f'missing field {name} of {fn}')
+                    if len(vals) != len(fields):
+                        raise NotConstant(f'arity of {fn}')
+                    return NTRow(obj.name, fields, vals)
             raise NotConstant(f'call {fn}')
         if isinstance(node, ast.Subscript):
             v = f(node.value)
@@ -459,6 +609,8 @@ class Repo:
             except Exception as e:
                 raise NotConstant(f'subscript {e}')
         if isinstance(node, ast.Attribute):
+            if isinstance(node.value, ast.Name) and env and isinstance(env.get(node.value.id), NTRow) and node.attr in env[node.value.id]._fields:
+                return env[node.value.id].field(node.attr)
             d = dotted(node)
             if d:
                 q = self.resolve_name(mi, d)
